@@ -477,7 +477,7 @@ func (w *World) observeParams(ps []Param, vals func(i int) reflect.Value, out []
 		case PGroup:
 			out = append(out, w.observeGroup(v))
 		case PObj:
-			if p.Hidden > 0 {
+			if p.Hidden != 0 {
 				// declared (catalogue) object with an unexported field in between
 				out = w.observeParams(p.Fields, func(j int) reflect.Value { return v.FieldByName(fmt.Sprintf("F%d", j)) }, out)
 				continue
